@@ -13,6 +13,7 @@ import (
 	"testing"
 
 	"verif/internal/c01x"
+	"verif/internal/specgen"
 	"verif/internal/vk"
 )
 
@@ -64,5 +65,28 @@ func TestCorpus(t *testing.T) {
 	const per = 6
 	for i := 0; i < len(specs); i += per {
 		c01x.RunBatchOut(u, fmt.Sprintf("corpus%d", i), specs[i:min(i+per, len(specs))], "Run", false)
+	}
+}
+
+// TestFormatMatrix drives the fixed parameter-format documents (every type/format pair as a parameter
+// in every location, as an array item and as a response header; one document per time format).
+func TestFormatMatrix(t *testing.T) {
+	u := vk.New(t, "C01", "format-matrix")
+	defer u.Close()
+	if vk.InReplay() {
+		return
+	}
+	shard, shards := vk.Shard()
+	var specs []c01x.SpecCase
+	for i, m := range specgen.ParamFormatMatrix() {
+		if i%shards != shard {
+			continue
+		}
+		u.Eval(1)
+		u.Label("time-format:" + m.TimeFormat)
+		specs = append(specs, c01x.SpecCase{Meta: c01x.Meta{Doc: m.Doc, TimeFormat: m.TimeFormat}, Config: c01x.Configs[i%len(c01x.Configs)]})
+	}
+	if len(specs) > 0 {
+		c01x.RunBatch(u, "fmatrix", specs, "Run", false)
 	}
 }
